@@ -20,6 +20,7 @@ def Desc2R.lay : Desc2R → Lay2
   | .base d => d.lay
   | .reserved n bp bitp bl _ => Lay2.skip (reservedObj n bp bitp bl)
   | .nrcConst o _ _ => Lay2.skip o
+  | .u16le u _ bs => Lay2.obj .value u.name u.sh (u.sh.specRepr (.bytes bs))
   | .struct _ bp bso kids => (Lay2.sized bso (Descs2R.lay kids)).atPos bp
 def Descs2R.lay : List Desc2R → Lay2
   | [] => Lay2.nil
@@ -34,6 +35,9 @@ theorem Desc2R.foot : (x : Desc2R) → x.wf → Foot2 x.mc.c.pair.enc x.lay
     exact Desc2.foot d (Or.inl h)
   | .reserved n bp bitp bl r, _ => Foot2.skip (reservedObj n bp bitp bl) (.atom (.int r))
   | .nrcConst o _ r, _ => Foot2.skip o (.atom r)
+  | .u16le u cps bs, h => by
+    simp only [Desc2R.wf] at h
+    exact Comp.ofU16LE_foot u cps bs h.1 h.2
   | .struct name bp bso kids, h => by
     simp only [Desc2R.wf] at h
     exact Foot2.atPos bp (foot2_structO bso _ _ (Descs2R.foot kids h.1))
@@ -54,6 +58,7 @@ theorem Desc2R.footTop (trig : Option Bytes) (x : Desc2R) (h : x.wfTop trig) : F
     exact Desc2.foot d hd
   | reserved n bp bitp bl r => exact Desc2R.foot _ h
   | nrcConst o values r => exact Desc2R.foot _ h
+  | u16le u cps bs => exact Desc2R.foot _ h
   | struct name bp bso kids => exact Desc2R.foot _ h
 
 theorem Descs2R.footTop (trig : Option Bytes) : (ds : List Desc2R) → Descs2R.wfTop trig ds →
